@@ -12,17 +12,17 @@
 EXTENDS Handles, Json, IOUtils
 
 Rec == ndJsonDeserialize(IOEnv.TRACE)
-VARIABLES l, st, tot
-vars == <<l, st, tot>>
+VARIABLES l, st, tot, vd
+vars == <<l, st, tot, vd>>   \* vd: handle id |-> how often its value has been dropped so far (its write included)
 Viol(prop, pred, ok) == IF ok THEN TRUE ELSE PrintT(<<"VIOL", prop, pred, l, 0>>)
 Drift(what) == PrintT(<<"DRIFT", l, 0, what>>)
 
-Init == l = 1 /\ st = New("vec") /\ tot = [unmounts |-> 0, drops |-> 0]
+Init == l = 1 /\ st = New("vec") /\ tot = [unmounts |-> 0, drops |-> 0] /\ vd = <<>>
 
 Step0 ==
   LET e == Rec[l] IN
-  IF e.ev = "reset" THEN st' = New(e.backend) /\ tot' = [unmounts |-> 0, drops |-> 0]
-  ELSE IF e.ev # "op" \/ e.res = "skip" THEN UNCHANGED <<st, tot>>
+  IF e.ev = "reset" THEN st' = New(e.backend) /\ tot' = [unmounts |-> 0, drops |-> 0] /\ vd' = <<>>
+  ELSE IF e.ev # "op" \/ e.res = "skip" THEN UNCHANGED <<st, tot, vd>>
   ELSE
   LET op == e.op
       s2 == Step(st, op)
@@ -30,10 +30,15 @@ Step0 ==
       holders == Holders(s2)
   IN
   /\ st' = s2 /\ tot' = t2
+  /\ vd' = IF op.k \in {"ab", "at", "adc"} THEN (st.nextH :> e.drops) @@ vd ELSE vd
   /\ Viol("C13", "RefsEqualsArenaValues", e.refs < 0 \/ e.refs = holders)
   /\ Viol("C13", "MemoryReleasedExactlyOnceAtZero", t2.unmounts = (IF holders = 0 THEN 1 ELSE 0))
+  \* over its life (write .. drop of the non-detached handle) the value is dropped exactly once: a sized value with its
+  \* handle, a zero-sized one wherever the implementation chooses; no other call drops anything
   /\ Viol("C13", "NeedsDropDroppedExactlyOnce",
-          e.drops = (IF op.k = "drop" /\ st.hs[op.h].kind = "dc" /\ ~st.hs[op.h].det THEN 1 ELSE 0))
+          IF op.k = "drop" /\ st.hs[op.h].kind = "dc" /\ ~st.hs[op.h].det THEN vd[op.h] + e.drops = 1
+          ELSE IF op.k = "drop" \/ (op.k = "adc" /\ op.z) THEN e.drops <= 1
+          ELSE e.drops = 0)
   /\ Viol("C13", "FileRemovedExactlyThen", (s2.file = "none") \/ (e.file_exists = ~(holders = 0 /\ s2.rod)))
   /\ Viol("C13", "NoPanic", e.res # "panic")
   /\ ((e.refs >= 0 /\ e.refs # s2.refs) \/ t2.unmounts # s2.released \/ t2.drops # s2.drops
